@@ -236,6 +236,13 @@ structure TraitItem where
   members : List TraitMember := []
   deriving DecidableEq, Repr, Inhabited
 
+def TraitMember.fn? : TraitMember → Option TraitFnItem
+  | .fn f => some f
+  | _ => none
+
+/-- the methods of a trait, in source order -/
+def TraitItem.fns (t : TraitItem) : List TraitFnItem := t.members.filterMap TraitMember.fn?
+
 def TraitItem.print (t : TraitItem) : Toks :=
   printAttrs t.attrs ++ t.vis ++
   (if t.unsafe_ then [i "unsafe"] else []) ++ (if t.auto_ then [i "auto"] else []) ++
